@@ -362,7 +362,7 @@ def _local_funcs(ctx, fi):
     out = [fi]
     parent = fi.parent if isinstance(fi.parent, FuncInfo) else None
     for f in ctx.repo.functions.values():
-        if f is fi or isinstance(f.node, ast.Lambda):
+        if f is fi or isinstance(f.node, ast.Lambda) or f.qualname == fi.qualname:      # (fi may be a normalised view of f)
             continue
         if f.parent is fi or (parent is not None and f.parent is parent):
             out.append(f)
@@ -417,7 +417,7 @@ def descr_signature(ctx, fi):
     # Case 2: new list built by a loop with append
     if isinstance(v, ast.Name):
         lst = v.id
-        loops = [x for x in own_nodes(f.node) if isinstance(x, ast.For) and _is_resources_expr(x.iter)
+        loops = [x for x in own_nodes(f.node) if isinstance(x, ast.For) and _is_resources_expr(once_bound(f.node, x.iter))
                  and isinstance(x.target, ast.Name)
                  and any(isinstance(c, ast.Call) and isinstance(c.func, ast.Attribute) and c.func.attr == 'append'
                          and isinstance(c.func.value, ast.Name) and c.func.value.id == lst for c in ast.walk(x))]
